@@ -84,6 +84,7 @@ func genC03(w *World, res *CheckResult) {
 			delete(w.forceInline, "vm."+n)
 		}
 		delete(w.forceInline, "checker.dereference")
+		delete(w.forceInline, "conf.dereference")
 	}()
 	lay := astLayout{w}
 	U := c03Universe()
@@ -459,7 +460,7 @@ func c03Reference(op string, l, r c03Type) (accept, ok bool) {
 
 // genCheckerPointer: `#` is typed by the innermost collection (contract of checker.visitor.PointerNode).
 func genCheckerPointer(w *World, res *CheckResult) {
-	for _, n := range []string{"checker.visitor.PointerNode", "checker.indexType", "checker.visitor.checkFunc", "checker.visitor.BuiltinNode", "checker.fieldType"} {
+	for _, n := range []string{"checker.visitor.PointerNode", "checker.indexType", "checker.visitor.checkFunc", "checker.visitor.BuiltinNode", "checker.fieldType", "checker.Check", "conf.FieldsFromStruct"} {
 		f2, ct := w.Func(n), w.Contracts[n]
 		if f2 == nil || ct == nil {
 			res.Obls = append(res.Obls, missingObl(n+"/exists", "function or contract missing"))
@@ -472,6 +473,9 @@ func genCheckerPointer(w *World, res *CheckResult) {
 			delete(w.forceInline, n)
 			w.forceInline["checker.dereference"] = true
 		}
+		if n == "conf.FieldsFromStruct" {
+			delete(w.forceInline, n)
+		}
 		e2.VerifyFunc(f2, ct, nil)
 		delete(w.forceInline, n)
 		delete(w.forceInline, "checker.dereference")
@@ -479,7 +483,7 @@ func genCheckerPointer(w *World, res *CheckResult) {
 			if strings.Contains(o.Name, "/safe:") {
 				continue
 			}
-			if (n == "checker.visitor.checkFunc" || n == "checker.visitor.BuiltinNode") && strings.Contains(o.Name, "/call-pre:") {
+			if (n == "checker.visitor.checkFunc" || n == "checker.visitor.BuiltinNode" || n == "checker.Check") && strings.Contains(o.Name, "/call-pre:") {
 				continue // non-nil argument nodes across calls of visit (assigns *): a tree-shape fact, not decided here
 			}
 			res.Obls = append(res.Obls, o)
